@@ -116,9 +116,15 @@ func (m *twModel) learnGroup(rp int, sg *meta.ShardGroupInfo) {
 		if len(sh.Owners) > 0 {
 			pt = sh.Owners[0]
 		}
-		m.shards[sh.ID] = &twShardM{id: sh.ID, group: sg.ID, pt: pt, rp: rp, start: sg.StartTime.UnixNano(), end: sg.EndTime.UnixNano(),
+		s := &twShardM{id: sh.ID, group: sg.ID, pt: pt, rp: rp, start: sg.StartTime.UnixNano(), end: sg.EndTime.UnixNano(),
 			indexID: sh.IndexID, rows: map[twKey]int64{}, altered: "none", state: "absent"}
-		m.r.out.Stats["shards_in_catalogue"]++
+		if int(pt) >= m.r.c.PTs {
+			s.foreign, s.state = true, "foreign"
+			m.r.out.Stats["foreign_shards_in_catalogue"]++
+		} else {
+			m.r.out.Stats["shards_in_catalogue"]++
+		}
+		m.shards[sh.ID] = s
 	}
 }
 
@@ -226,18 +232,8 @@ func (m *twModel) syncCatalogue() {
 					if _, ok := m.shards[sh.ID]; ok {
 						continue
 					}
-					pt := uint32(0)
-					if len(sh.Owners) > 0 {
-						pt = sh.Owners[0]
-					}
-					if int(pt) < m.r.c.PTs {
-						// one of ours: learnt when the first point is routed to its group
-						m.learnGroup(i, sg)
-						continue
-					}
-					m.shards[sh.ID] = &twShardM{id: sh.ID, group: sg.ID, pt: pt, rp: i, start: sg.StartTime.UnixNano(), end: sg.EndTime.UnixNano(),
-						indexID: sh.IndexID, rows: map[twKey]int64{}, altered: "none", state: "foreign", foreign: true}
-					m.r.out.Stats["foreign_shards_in_catalogue"]++
+					m.learnGroup(i, sg)
+					break
 				}
 			}
 		}
